@@ -384,4 +384,235 @@ theorem rtp_step (ps : List LayerInfo) (t : Rtp) (os : List AnyObj) (hi : t.Inv)
     simp only [List.replicate_zero, List.append_nil]
     exact tailInner_ite io
 
+/-! ### a link-layer class followed by ARP / RC4EAPOL / RSNEAPOL -/
+
+/-- ARP and RC4EAPOL / RSNEAPOL: the classes outside the link-layer family (besides IP / IPv6) an EtherType names; `n` is the
+    name the dispatch uses (`EAPOL` = `EAPOL::from_bytes`, which needs the key-descriptor type octet to name the class) -/
+def ExtTier (y : AnyObj) (n : String) : Prop :=
+  match y with
+  | .app (.arp _) => n = "ARP"
+  | .wifi (.eapol e) => n = "EAPOL" ∧ EapolTyped e
+  | _ => False
+
+theorem extTier_cls {y : AnyObj} {n : String} (h : ExtTier y n) :
+    (y.info.1 = "ARP" ∧ n = "ARP") ∨ (y.info.1 = "RC4EAPOL" ∧ n = "EAPOL") ∨ (y.info.1 = "RSNEAPOL" ∧ n = "EAPOL") := by
+  cases y with
+  | app o => cases o <;> first | exact .inl ⟨rfl, h⟩ | exact h.elim
+  | wifi o =>
+    cases o with
+    | eapol e =>
+      have hn : n = "EAPOL" := h.1
+      cases hr : e.rsn with
+      | false => exact .inr (.inl ⟨by simp [AnyObj.info, Wifi.info, hr], hn⟩)
+      | true => exact .inr (.inr ⟨by simp [AnyObj.info, Wifi.info, hr], hn⟩)
+    | _ => exact h.elim
+  | _ => exact h.elim
+
+theorem extTier_not_raw {y : AnyObj} {n : String} (h : ExtTier y n) : isRaw y = false := by
+  cases y <;> first | rfl | exact h.elim
+
+theorem extTier_entry {y : AnyObj} {n : String} (h : ExtTier y n) : EntryName n y := by
+  cases y with
+  | app o => cases o <;> first | exact .inl h | exact h.elim
+  | wifi o =>
+    cases o with
+    | eapol e => exact .inr ⟨.inl h.1, h.2⟩
+    | _ => exact h.elim
+  | _ => exact h.elim
+
+theorem extTier_pad {y : AnyObj} {n : String} (h : ExtTier y n) : PadOKN n y := by
+  cases y with
+  | app o => cases o <;> first | exact .inl trivial | exact h.elim
+  | wifi o =>
+    cases o with
+    | eapol e => exact .inr ⟨rfl, .inl h.1⟩
+    | _ => exact h.elim
+  | _ => exact h.elim
+
+theorem etherTagOf_ext (c n : String)
+    (hc : (c = "ARP" ∧ n = "ARP") ∨ (c = "RC4EAPOL" ∧ n = "EAPOL") ∨ (c = "RSNEAPOL" ∧ n = "EAPOL")) (f : Fields) (h t : Nat) :
+    L2.etherTagOf ⟨c, f, h, t⟩ ≠ 0 ∧ Tags.classOfEther (L2.etherTagOf ⟨c, f, h, t⟩) = some n := by
+  rcases hc with ⟨rfl, rfl⟩ | ⟨rfl, rfl⟩ | ⟨rfl, rfl⟩
+  · have hp : Tags.pduTypeOf "ARP" = "ARP" := by decide
+    have hn : ("ARP" == "PPPOE") = false := by decide
+    simp only [L2.etherTagOf, hp, hn, Bool.false_eq_true, if_false]
+    decide
+  · have hp : Tags.pduTypeOf "RC4EAPOL" = "RC4EAPOL" := by decide
+    have hn : ("RC4EAPOL" == "PPPOE") = false := by decide
+    simp only [L2.etherTagOf, hp, hn, Bool.false_eq_true, if_false]
+    decide
+  · have hp : Tags.pduTypeOf "RSNEAPOL" = "RSNEAPOL" := by decide
+    have hn : ("RSNEAPOL" == "PPPOE") = false := by decide
+    simp only [L2.etherTagOf, hp, hn, Bool.false_eq_true, if_false]
+    decide
+
+theorem headTag_ext (ps : List LayerInfo) (y : AnyObj) (r : List AnyObj) (d s : Nat) (n : String) (hy : ExtTier y n) :
+    Tags.classOfEther (L2.headTag (cxOf ps (y :: r)) d s) = some n := by
+  have := etherTagOf_ext y.info.1 n (extTier_cls hy) y.info.2 y.hdr (y.trl (sizeOfStack r))
+  simp [L2.headTag, cxOf_head_obj, this.1, this.2]
+
+theorem eth_tagFor_ext (cx : Ctx) (e : L2.Eth) (i : LayerInfo) (rest : List LayerInfo) (n : String) (hc : cx.inners = i :: rest)
+    (h : (i.cls = "ARP" ∧ n = "ARP") ∨ (i.cls = "RC4EAPOL" ∧ n = "EAPOL") ∨ (i.cls = "RSNEAPOL" ∧ n = "EAPOL")) :
+    Tags.classOfEther (L2.Eth.tagFor cx e) = some n := by
+  unfold L2.Eth.tagFor
+  rw [hc]
+  obtain ⟨c, f, hd, tr⟩ := i
+  dsimp only at h ⊢
+  rcases h with ⟨h, rfl⟩ | ⟨h, rfl⟩ | ⟨h, rfl⟩ <;> subst h
+  · have hp : Tags.pduTypeOf "ARP" = "ARP" := by decide
+    have h1 : ("ARP" == "PPPOE") = false := by decide
+    have h2 : ("ARP" == "DOT1Q") = false := by decide
+    have d1 : Tags.etherOfPduType "ARP" = 2054 := by decide
+    have c1 : Tags.classOfEther 2054 = some "ARP" := by decide
+    simp [hp, h1, h2, d1, c1]
+  · have hp : Tags.pduTypeOf "RC4EAPOL" = "RC4EAPOL" := by decide
+    have h1 : ("RC4EAPOL" == "PPPOE") = false := by decide
+    have h2 : ("RC4EAPOL" == "DOT1Q") = false := by decide
+    have d1 : Tags.etherOfPduType "RC4EAPOL" = 34958 := by decide
+    have c1 : Tags.classOfEther 34958 = some "EAPOL" := by decide
+    simp [hp, h1, h2, d1, c1]
+  · have hp : Tags.pduTypeOf "RSNEAPOL" = "RSNEAPOL" := by decide
+    have h1 : ("RSNEAPOL" == "PPPOE") = false := by decide
+    have h2 : ("RSNEAPOL" == "DOT1Q") = false := by decide
+    have d1 : Tags.etherOfPduType "RSNEAPOL" = 34958 := by decide
+    have c1 : Tags.classOfEther 34958 = some "EAPOL" := by decide
+    simp [hp, h1, h2, d1, c1]
+
+/-- **EthernetII in front of ARP / EAPOL** -/
+theorem eth_step_ext (ps : List LayerInfo) (e : L2.Eth) (y : AnyObj) (r : List AnyObj) (n : String) (hwf : e.WF)
+    (hy : ExtTier y n) (region io : Bytes)
+    (hlen : region.length = 14 + sizeOfStack (y :: r) + L2.Eth.trl (sizeOfStack (y :: r)))
+    (hio : (region.drop 14).take (sizeOfStack (y :: r)) = io) :
+    ∃ out x' inner, e.write (cxOf ps (y :: r)) region = .ok out ∧ out.length = region.length ∧
+      parseOne "EthernetII" out = .ok (x', inner) ∧
+      layerView false x' = layerView false (.l2 (.eth e)) ∧
+      StepInnerA (.l2 (.eth e)) (y :: r) io (L2.Eth.trl (sizeOfStack (y :: r))) x' inner := by
+  rcases L2.eth_reparse (cxOf ps (y :: r)) e hwf region hlen with ⟨out, hw, hl, hp⟩
+  rw [cxOf_innerSizeA, hio] at hp
+  have hd := eth_tagFor_ext (cxOf ps (y :: r)) e _ _ n (cxOf_inners_obj ps y r) (extTier_cls hy)
+  rw [L2.etherInner_some hd] at hp
+  exact ⟨out, _, _, hw, hl, L2.parseOne_eth _ _ _ hp, L2.eth_view_false e _,
+    stepInnerA_objN _ _ y r io _ _ _ n false (extTier_not_raw hy) rfl rfl (extTier_entry hy) (.inr (extTier_pad hy))⟩
+
+/-- **Dot1Q in front of ARP / EAPOL**, `k` zero bytes of an enclosing layer's padding behind it -/
+theorem dot1q_step_ext (ps : List LayerInfo) (q : L2.Dot1Q) (y : AnyObj) (r : List AnyObj) (n : String) (hwf : q.WF)
+    (hy : ExtTier y n) (region io : Bytes) (k : Nat)
+    (hlen : region.length = 4 + sizeOfStack (y :: r) + q.trl (sizeOfStack (y :: r)))
+    (hio : (region.drop 4).take (sizeOfStack (y :: r)) = io) (hpos : 0 < io.length) :
+    ∃ out x' inner, q.write (cxOf ps (y :: r)) region = .ok out ∧ out.length = region.length ∧
+      parseOne "Dot1Q" (out ++ List.replicate k 0) = .ok (x', inner) ∧
+      layerView false x' = layerView false (.l2 (.dot1q q)) ∧
+      StepInnerA (.l2 (.dot1q q)) (y :: r) io (q.trl (sizeOfStack (y :: r)) + k) x' inner := by
+  rcases L2.dot1q_reparse_junk (cxOf ps (y :: r)) q hwf region hlen k with ⟨out, hw, hl, hp⟩
+  rw [cxOf_innerSizeA, hio] at hp
+  have hiol : io.length ≤ sizeOfStack (y :: r) := by rw [← hio]; simp only [List.length_take]; omega
+  have hgt : region.length + k > 4 := by omega
+  rw [if_pos hgt] at hp
+  have hd : Tags.classOfEther (L2.Dot1Q.tagFor (cxOf ps (y :: r)) q) = some n := by
+    rw [L2.dot1q_tagFor_eq]; exact headTag_ext ps y r _ _ n hy
+  rw [L2.etherInner_some hd] at hp
+  exact ⟨out, _, _, hw, hl, L2.parseOne_dot1q _ _ _ hp, L2.dot1q_view q _ false false (fun h => by cases h),
+    stepInnerA_objN _ _ y r io _ _ _ n false (extTier_not_raw hy) rfl rfl (extTier_entry hy) (.inr (extTier_pad hy))⟩
+
+/-- **SNAP in front of ARP / EAPOL** -/
+theorem snap_step_ext (ps : List LayerInfo) (s : L2.Snap) (y : AnyObj) (r : List AnyObj) (n : String) (hwf : s.WF)
+    (hy : ExtTier y n) (region io : Bytes) (hlen : region.length = 8 + sizeOfStack (y :: r)) (hio : region.drop 8 = io)
+    (hpos : 0 < io.length) :
+    ∃ out x' inner, s.write (cxOf ps (y :: r)) region = .ok out ∧ out.length = region.length ∧
+      parseOne "SNAP" out = .ok (x', inner) ∧
+      layerView false x' = layerView false (.l2 (.snap s)) ∧
+      StepInnerA (.l2 (.snap s)) (y :: r) io 0 x' inner := by
+  rcases L2.snap_reparse (cxOf ps (y :: r)) s hwf region (by omega) with ⟨out, hw, hl, hp⟩
+  rw [hio] at hp
+  have hiol : io.length = region.length - 8 := by rw [← hio]; simp
+  have hgt : region.length > 8 := by omega
+  rw [if_pos hgt] at hp
+  have hd : Tags.classOfEther (L2.Snap.tagFor (cxOf ps (y :: r)) s) = some n := by
+    rw [L2.snap_tagFor_eq]; exact headTag_ext ps y r _ _ n hy
+  rw [L2.etherInner_some hd] at hp
+  exact ⟨out, _, _, hw, hl, L2.parseOne_snap _ _ _ hp, L2.snap_view s _ false (fun h => by cases h),
+    stepInnerA_objN _ _ y r io 0 0 _ n false (extTier_not_raw hy) rfl (by simp) (extTier_entry hy) (.inl rfl)⟩
+
+/-- **SLL in front of ARP / EAPOL** -/
+theorem sll_step_ext (ps : List LayerInfo) (s : L2.Sll) (y : AnyObj) (r : List AnyObj) (n : String) (hwf : s.WF)
+    (hy : ExtTier y n) (region io : Bytes) (hlen : region.length = 16 + sizeOfStack (y :: r)) (hio : region.drop 16 = io)
+    (hpos : 0 < io.length) :
+    ∃ out x' inner, s.write (cxOf ps (y :: r)) region = .ok out ∧ out.length = region.length ∧
+      parseOne "SLL" out = .ok (x', inner) ∧
+      layerView false x' = layerView false (.l2 (.sll s)) ∧
+      StepInnerA (.l2 (.sll s)) (y :: r) io 0 x' inner := by
+  rcases L2.sll_reparse (cxOf ps (y :: r)) s hwf region (by omega) with ⟨out, hw, hl, hp⟩
+  rw [hio] at hp
+  have hiol : io.length = region.length - 16 := by rw [← hio]; simp
+  have hgt : region.length > 16 := by omega
+  rw [if_pos hgt] at hp
+  have hd : Tags.classOfEther (L2.Sll.tagFor (cxOf ps (y :: r)) s) = some n := by
+    rw [L2.sll_tagFor_eq]; exact headTag_ext ps y r _ _ n hy
+  rw [L2.etherInner_some hd] at hp
+  exact ⟨out, _, _, hw, hl, L2.parseOne_sll _ _ _ hp, L2.sll_view s _ false (fun h => by cases h),
+    stepInnerA_objN _ _ y r io 0 0 _ n false (extTier_not_raw hy) rfl (by simp) (extTier_entry hy) (.inl rfl)⟩
+
+theorem take_drop_fullB (region : Bytes) (h n : Nat) (hl : region.length = h + n) : (region.drop h).take n = region.drop h :=
+  List.take_of_length_le (by simp only [List.length_drop]; omega)
+
+/-- a link-layer class (EthernetII, Dot1Q, SNAP, SLL) in front of ARP / RC4EAPOL / RSNEAPOL -/
+theorem l2_step_ext (ps : List LayerInfo) (x : L2.Obj) (y : AnyObj) (r : List AnyObj) (n : String) (hinv : L2.ObjInv x)
+    (hy : ExtTier y n) (hl : l2Ether x) (k : Nat) (hk : PadCond ps (.l2 x) k) (region io : Bytes)
+    (hlen : region.length = L2.hdr x + sizeOfStack (y :: r) + L2.trl x (sizeOfStack (y :: r)))
+    (hio : (region.drop (L2.hdr x)).take (sizeOfStack (y :: r)) = io) (hpos : 0 < io.length) :
+    ∃ out x' inner, L2.write (cxOf ps (y :: r)) x region = .ok out ∧ out.length = region.length ∧
+      parseOne (L2.info x).1 (out ++ List.replicate k 0) = .ok (x', inner) ∧
+      layerView false x' = layerView false (.l2 x) ∧
+      StepInnerA (.l2 x) (y :: r) io (L2.trl x (sizeOfStack (y :: r)) + k) x' inner := by
+  have hk0 : ¬ L2.EtherTier x → k = 0 := fun hn => by rcases hk with h | h; exact h; exact absurd h.2 hn
+  cases x with
+  | eth e =>
+    have := hk0 (by simp [L2.EtherTier]); subst this
+    rcases eth_step_ext ps e y r n hinv hy region io hlen hio with ⟨out, x', inner, hw, hol, hp, hvw, hs⟩
+    exact ⟨out, x', inner, hw, hol, by rw [List.replicate_zero, List.append_nil]; exact hp, hvw, hs⟩
+  | dot1q q => exact dot1q_step_ext ps q y r n hinv hy region io k hlen hio hpos
+  | snap s =>
+    have := hk0 (by simp [L2.EtherTier]); subst this
+    simp only [L2.hdr, L2.trl, Nat.add_zero] at hlen hio
+    rw [take_drop_fullB region 8 _ hlen] at hio
+    rcases snap_step_ext ps s y r n hinv hy region io hlen hio hpos with ⟨out, x', inner, hw, hol, hp, hvw, hs⟩
+    exact ⟨out, x', inner, hw, hol, by rw [List.replicate_zero, List.append_nil]; exact hp, hvw, hs⟩
+  | sll s =>
+    have := hk0 (by simp [L2.EtherTier]); subst this
+    simp only [L2.hdr, L2.trl, Nat.add_zero] at hlen hio
+    rw [take_drop_fullB region 16 _ hlen] at hio
+    rcases sll_step_ext ps s y r n hinv hy region io hlen hio hpos with ⟨out, x', inner, hw, hol, hp, hvw, hs⟩
+    exact ⟨out, x', inner, hw, hol, by rw [List.replicate_zero, List.append_nil]; exact hp, hvw, hs⟩
+  | _ => exact hl.elim
+
+/-! ### LLC in front of STP -/
+
+theorem llc_written_stp (ps : List LayerInfo) (l : L2.Llc) (s : Stp) (r : List AnyObj) (hd : l.dsap = 0x42) (hs : l.ssap = 0x42) :
+    L2.Llc.written (cxOf ps (.app (.stp s) :: r)) l = l := by
+  unfold L2.Llc.written
+  rw [cxOf_innerCls_obj]
+  have : (AnyObj.app (.stp s)).info.1 = "STP" := rfl
+  rw [this]
+  simp only [beq_self_eq_true, if_true]
+  cases l
+  simp only at hd hs
+  subst hd; subst hs
+  rfl
+
+/-- **LLC (DSAP = SSAP = 0x42, no information fields) in front of STP** -/
+theorem llc_step_stp (ps : List LayerInfo) (l : L2.Llc) (s : Stp) (r : List AnyObj) (hinv : l.Inv)
+    (hl : l2ToStp (.llc l)) (region io : Bytes) (hlen : region.length = l.hdr + sizeOfStack (.app (.stp s) :: r))
+    (hio : region.drop l.hdr = io) (hpos : 0 < io.length) :
+    ∃ out x' inner, l.write (cxOf ps (.app (.stp s) :: r)) region = .ok out ∧ out.length = region.length ∧
+      parseOne "LLC" out = .ok (x', inner) ∧
+      layerView false x' = layerView false (.l2 (.llc l)) ∧
+      StepInnerA (.l2 (.llc l)) (.app (.stp s) :: r) io 0 x' inner := by
+  obtain ⟨hd, hs, hno⟩ : l.dsap = 0x42 ∧ l.ssap = 0x42 ∧ l.infos = [] := hl
+  rcases L2.llc_api_reparse_partial (cxOf ps (.app (.stp s) :: r)) l hinv hno region (by omega) with ⟨out, hw, hol, hp⟩
+  rw [hio, llc_written_stp ps l s r hd hs] at hp
+  refine ⟨out, _, _, hw, hol, L2.parseOne_llc _ _ _ hp, L2.llc_view l false, ?_⟩
+  apply stepInnerA_obj _ _ (.app (.stp s)) r io 0 0 _ false rfl rfl _ (.inl rfl)
+  simp only [L2.Llc.innerFor, hpos, if_true, hd, hs, List.replicate_zero, List.append_nil]
+  rfl
+
 end Tins.Wire.ChainAll
